@@ -29,7 +29,7 @@ func (e *Engine) GenFunc(key string, con *Contract) (vc *VC, err error) {
 	if len(fn.Blocks) == 0 {
 		return nil, fmt.Errorf("function %s has no body", key)
 	}
-	if hasAbstract(con, "body") { // authflow.go (w-c18): unit checked by the static authority analysis only
+	if hasAbstract(con, "body") && staticOnlyContract(con) { // authflow.go (w-c18): unit checked by the static authority analysis only
 		return e.genStaticUnit(key, con)
 	}
 	vc = newVC(e, fn, con, key)
